@@ -24,7 +24,8 @@ EXPLANATION = (
     'QAM arg^2 = 2 snr h^2/average_energy with h and average_energy read from _createConstellation; PSK arg = '
     'sqrt(2 snr) r sin(half the angular step) with r and the step read from _createConstellation; BPSK arg = '
     'sqrt(2 snr) d for the literal +-d table. Not decided: values in [0,1], monotonicity, limits, the neighbour '
-    'multiplicities (real analysis of erfc compositions).')
+    'multiplicities (real analysis of erfc compositions).'
+    ' General rules also applied here (see DESIGN 10.5): input immutability (no in-place modification of an array argument, alias- and view-aware).')
 
 
 def _self_atom(meth: str, *args: T.Term) -> T.Term:
